@@ -27,6 +27,7 @@ import (
 	"strconv"
 	"strings"
 	"sync"
+	"sync/atomic"
 	"time"
 
 	"src.elv.sh/pkg/daemon"
@@ -597,24 +598,205 @@ func genOp(r *rand.Rand, span int, addHeavy bool) op {
 // ---------------------------------------------------------------- one run
 
 type desc struct {
-	Class    string   `json:"class"`
-	Clients  string   `json:"clients"`
-	Procs    int      `json:"gomaxprocs"`
-	Calls    []string `json:"calls"` // client, op, result, [inv,ret] in ns
-	Witness  string   `json:"witness"`
-	Overlaps int      `json:"overlapping_pairs"`
+	Class     string   `json:"class"`
+	Clients   string   `json:"clients"`
+	Procs     int      `json:"gomaxprocs"`
+	DB        string   `json:"db"` // disk | shm
+	Total     int      `json:"calls_recorded"`
+	Calls     []string `json:"calls"` // judged calls: client, op, result, [inv,ret] in ns
+	Projected bool     `json:"projected"`
+	Anomalies []string `json:"real_time_anomalies,omitempty"`
+	Witness   string   `json:"witness"`
+	Overlaps  int      `json:"overlapping_pairs"`
 }
 
 var runCount int
 
-func oneRun(c *reg.Ctx, nSep, nShared, perClient, procs int) {
+// cfg describes one run.  Ordinary runs: every goroutine executes a random
+// operation list.  Probe runs: nWriters goroutines add commands continuously
+// while the other goroutines loop NextCmdSeq -> Cmd(seq-1) / CmdsWithSeq(seq-3,
+// seq) / PrevCmd(seq, "") back to back, i.e. they read what the sequence
+// counter has just promised.
+type cfg struct {
+	nSep, nShared int
+	perClient     int
+	procs         int
+	disk          bool // database under c.Scratch (fsync-bound commits) instead of /dev/shm
+	probe         bool
+	nWriters      int // probe: the first nWriters goroutines are writers
+	adds          int // probe: AddCmd calls per writer
+	readerCap     int // probe: maximal loop iterations per reader
+}
+
+func (k cfg) class() string {
+	if k.probe {
+		if k.disk {
+			return "probe-disk"
+		}
+		return "probe-shm"
+	}
+	switch {
+	case k.nSep == 0:
+		return "shared"
+	case k.nShared > 0:
+		return "mixed"
+	}
+	return "separate"
+}
+
+func isMutator(o op) bool {
+	switch o.K {
+	case "add", "del", "adddir", "deldir":
+		return true
+	}
+	return false
+}
+
+// anomalies is the fast per-key check of real-time anomalies around the
+// sequence counter.  known(t) = the largest number that some call which
+// returned before t has shown to be allocated (NextCmdSeq -> r shows r-1,
+// AddCmd -> z shows z).  A number that is known to be allocated and that no
+// DelCmd of the history names must be visible to every later read, and the
+// counter must never fall behind it.  Returns the offending calls, each with
+// the call that established the knowledge (both are needed to make the
+// projected history non-linearizable), and a description.
+func anomalies(calls []call) (flagged []int, texts []string) {
+	type ev struct {
+		ret  int64
+		upTo int
+		idx  int
+	}
+	var evs []ev
+	deleted := map[uint64]bool{}
+	for i, c := range calls {
+		switch {
+		case c.Op.K == "seq" && c.Res.Kind == "int":
+			evs = append(evs, ev{c.Ret, c.Res.Z - 1, i})
+		case c.Op.K == "add" && c.Res.Kind == "int":
+			evs = append(evs, ev{c.Ret, c.Res.Z, i})
+		case c.Op.K == "del":
+			deleted[uint64(c.Op.A)] = true
+		}
+	}
+	sort.Slice(evs, func(i, j int) bool { return evs[i].ret < evs[j].ret })
+	// prefix maxima
+	best := make([]ev, len(evs))
+	for i, e := range evs {
+		best[i] = e
+		if i > 0 && best[i-1].upTo >= e.upTo {
+			best[i] = best[i-1]
+		}
+	}
+	known := func(t int64) (int, int) {
+		j := sort.Search(len(evs), func(i int) bool { return evs[i].ret >= t })
+		if j == 0 {
+			return 0, -1
+		}
+		return best[j-1].upTo, best[j-1].idx
+	}
+	flag := func(i, by int, msg string) {
+		if len(flagged) < 40 {
+			flagged = append(flagged, i, by)
+		}
+		if len(texts) < 20 {
+			texts = append(texts, fmt.Sprintf("#%d c%d %s = %s [%d,%d]: %s (shown by #%d c%d %s = %s [%d,%d])",
+				i, calls[i].Client, calls[i].Op, calls[i].Res, calls[i].Inv, calls[i].Ret, msg,
+				by, calls[by].Client, calls[by].Op, calls[by].Res, calls[by].Inv, calls[by].Ret))
+		}
+	}
+	for i, c := range calls {
+		k, by := known(c.Inv)
+		if by < 0 {
+			continue
+		}
+		present := func(n int) bool { return n >= 1 && n <= k && !deleted[uint64(n)] }
+		switch c.Op.K {
+		case "get":
+			if c.Res.Kind == "nomatch" && present(c.Op.A) {
+				flag(i, by, fmt.Sprintf("command %d was known to exist", c.Op.A))
+			}
+		case "list":
+			if c.Res.Kind != "cmds" || c.Op.A < 0 || c.Op.B < 0 || c.Op.B-c.Op.A > 64 {
+				continue
+			}
+			seen := map[int]bool{}
+			for _, x := range c.Res.Cmds {
+				seen[x.Seq] = true
+			}
+			for n := c.Op.A; n < c.Op.B; n++ {
+				if present(n) && !seen[n] {
+					flag(i, by, fmt.Sprintf("command %d was known to exist", n))
+					break
+				}
+			}
+		case "prev":
+			if c.Op.Text == "" && c.Op.A >= 2 && present(c.Op.A-1) && !(c.Res.Kind == "cmd" && c.Res.Z == c.Op.A-1) {
+				flag(i, by, fmt.Sprintf("command %d was known to exist", c.Op.A-1))
+			}
+		case "seq":
+			if c.Res.Kind == "int" && c.Res.Z <= k {
+				flag(i, by, fmt.Sprintf("number %d was known to be allocated", k))
+			}
+		case "add":
+			if c.Res.Kind == "int" && c.Res.Z <= k {
+				flag(i, by, fmt.Sprintf("number %d was known to be allocated", k))
+			}
+		}
+	}
+	return
+}
+
+// project keeps every call that changes the state, the flagged calls and a
+// sample of the other reads (with the same client's next call, so that
+// NextCmdSeq/read pairs stay together).  Dropping read-only calls from a
+// linearizable history leaves a linearizable history, so judging the
+// projection never raises a false alarm.
+func project(r *rand.Rand, calls []call, flagged []int, reads int) []call {
+	keep := make([]bool, len(calls))
+	for i, c := range calls {
+		if isMutator(c.Op) {
+			keep[i] = true
+		}
+	}
+	for _, i := range flagged {
+		keep[i] = true
+	}
+	next := func(i int) int { // the same goroutine's next call
+		for j := i + 1; j < len(calls); j++ {
+			if calls[j].Client == calls[i].Client {
+				return j
+			}
+		}
+		return -1
+	}
+	for n := 0; n < reads/2 && len(calls) > 0; n++ {
+		i := r.Intn(len(calls))
+		keep[i] = true
+		if j := next(i); j >= 0 {
+			keep[j] = true
+		}
+	}
+	var out []call
+	for i, c := range calls {
+		if keep[i] {
+			out = append(out, c)
+		}
+	}
+	return out
+}
+
+const longRun = 320 // histories with more calls are judged through their projection
+
+func oneRun(c *reg.Ctx, k cfg) {
 	runCount++
 	// Linearizability does not depend on durability: a memory-backed directory
 	// makes the update transactions as short as the read transactions, so that
-	// many more interleavings of reads and updates occur per run.
-	base := c.Scratch
-	if fi, err := os.Stat("/dev/shm"); err == nil && fi.IsDir() {
-		base = "/dev/shm"
+	// many more interleavings of reads and updates occur per run; a disk-backed
+	// one makes commits long, so that the window in which an update is in flight
+	// is wide.  Both are used.
+	base, dbKind := c.Scratch, "disk"
+	if fi, err := os.Stat("/dev/shm"); !k.disk && err == nil && fi.IsDir() {
+		base, dbKind = "/dev/shm", "shm"
 	}
 	dir, err := os.MkdirTemp(base, "verif-c26-")
 	if err != nil {
@@ -622,16 +804,14 @@ func oneRun(c *reg.Ctx, nSep, nShared, perClient, procs int) {
 	}
 	defer os.RemoveAll(dir)
 	sock, db := filepath.Join(dir, "sock"), filepath.Join(dir, "db")
-	class := "separate"
-	switch {
-	case nSep == 0:
-		class = "shared"
-	case nShared > 0:
-		class = "mixed"
+	class := k.class()
+	nG := k.nSep + k.nShared
+	d := desc{Class: class, Clients: fmt.Sprintf("%d separate + %d sharing one", k.nSep, k.nShared), Procs: k.procs, DB: dbKind}
+	if k.probe {
+		d.Clients += fmt.Sprintf("; %d writers x %d AddCmd, %d readers probing the sequence counter", k.nWriters, k.adds, nG-k.nWriters)
 	}
-	d := desc{Class: class, Clients: fmt.Sprintf("%d separate + %d sharing one", nSep, nShared), Procs: procs}
 	rc := reg.Case{Class: class}
-	old := runtime.GOMAXPROCS(procs)
+	old := runtime.GOMAXPROCS(k.procs)
 	defer runtime.GOMAXPROCS(old)
 
 	ready := make(chan struct{})
@@ -646,56 +826,109 @@ func oneRun(c *reg.Ctx, nSep, nShared, perClient, procs int) {
 		panic("daemon.Serve not ready after 60 s")
 	}
 
-	nG := nSep + nShared
-	span := nG*perClient*3/10 + 2
-	addHeavy := c.Rand.Intn(3) == 0
-	plans := make([][]op, nG)
-	for g := range plans {
-		r := rand.New(rand.NewSource(c.Rand.Int63()))
-		plans[g] = make([]op, perClient)
-		for i := range plans[g] {
-			plans[g][i] = genOp(r, span, addHeavy)
-		}
-	}
 	t0 := time.Now()
 	recs := make([][]call, nG)
-	doCall := func(g int, cl daemondefs.Client, o op) {
+	doCall := func(g int, cl daemondefs.Client, o op) result {
 		inv := int64(time.Since(t0))
 		res := exec1(cl, o)
 		ret := int64(time.Since(t0))
 		recs[g] = append(recs[g], call{Client: g, Op: o, Inv: inv, Ret: ret, Res: res})
+		return res
 	}
+	// the program of each goroutine
+	progs := make([]func(g int, cl daemondefs.Client), nG)
+	var first func(cl daemondefs.Client) // first request on the shared client, made alone
+	if !k.probe {
+		span := nG*k.perClient*3/10 + 2
+		addHeavy := c.Rand.Intn(3) == 0
+		plans := make([][]op, nG)
+		for g := range plans {
+			r := rand.New(rand.NewSource(c.Rand.Int63()))
+			plans[g] = make([]op, k.perClient)
+			for i := range plans[g] {
+				plans[g][i] = genOp(r, span, addHeavy)
+			}
+		}
+		for g := range progs {
+			progs[g] = func(g int, cl daemondefs.Client) {
+				for _, o := range plans[g] {
+					doCall(g, cl, o)
+				}
+			}
+		}
+		if k.nShared > 0 {
+			first = func(cl daemondefs.Client) {
+				doCall(k.nSep, cl, plans[k.nSep][0])
+				plans[k.nSep] = plans[k.nSep][1:]
+			}
+		}
+	} else {
+		var writersLeft atomic.Int32
+		writersLeft.Store(int32(k.nWriters))
+		for g := range progs {
+			seed := c.Rand.Int63()
+			if g < k.nWriters {
+				progs[g] = func(g int, cl daemondefs.Client) {
+					defer writersLeft.Add(-1)
+					r := rand.New(rand.NewSource(seed))
+					for i := 0; i < k.adds; i++ {
+						doCall(g, cl, op{K: "add", Text: words[r.Intn(len(words))]})
+					}
+				}
+				continue
+			}
+			progs[g] = func(g int, cl daemondefs.Client) {
+				r := rand.New(rand.NewSource(seed))
+				for i := 0; i < k.readerCap && (writersLeft.Load() > 0 || i < 8); i++ {
+					res := doCall(g, cl, op{K: "seq"})
+					if res.Kind != "int" || res.Z < 2 {
+						continue
+					}
+					s := res.Z
+					switch r.Intn(3) {
+					case 0:
+						doCall(g, cl, op{K: "get", A: s - 1})
+					case 1:
+						a := s - 3
+						if a < 0 {
+							a = 0
+						}
+						doCall(g, cl, op{K: "list", A: a, B: s})
+					default:
+						doCall(g, cl, op{K: "prev", A: s, Text: ""})
+					}
+				}
+			}
+		}
+		if k.nShared > 0 {
+			first = func(cl daemondefs.Client) { doCall(k.nSep, cl, op{K: "seq"}) }
+		}
+	}
+
 	var clients []daemondefs.Client
 	var wg sync.WaitGroup
 	start := make(chan struct{})
-	for g := 0; g < nSep; g++ {
-		cl := daemon.NewClient(sock)
-		clients = append(clients, cl)
+	launch := func(g int, cl daemondefs.Client) {
 		wg.Add(1)
-		go func(g int) {
+		go func() {
 			defer wg.Done()
 			<-start
-			for _, o := range plans[g] {
-				doCall(g, cl, o)
-			}
-		}(g)
+			progs[g](g, cl)
+		}()
 	}
-	if nShared > 0 {
+	for g := 0; g < k.nSep; g++ {
+		cl := daemon.NewClient(sock)
+		clients = append(clients, cl)
+		launch(g, cl)
+	}
+	if k.nShared > 0 {
 		shared := daemon.NewClient(sock)
 		clients = append(clients, shared)
 		// the first request on the shared client is made alone (it dials);
 		// afterwards its goroutines use it concurrently
-		doCall(nSep, shared, plans[nSep][0])
-		plans[nSep] = plans[nSep][1:]
-		for g := nSep; g < nG; g++ {
-			wg.Add(1)
-			go func(g int) {
-				defer wg.Done()
-				<-start
-				for _, o := range plans[g] {
-					doCall(g, shared, o)
-				}
-			}(g)
+		first(shared)
+		for g := k.nSep; g < nG; g++ {
+			launch(g, shared)
 		}
 	}
 	close(start)
@@ -733,7 +966,18 @@ func oneRun(c *reg.Ctx, nSep, nShared, perClient, procs int) {
 		calls = append(calls, l...)
 	}
 	sort.SliceStable(calls, func(i, j int) bool { return calls[i].Inv < calls[j].Inv })
-	order, best, exhausted := linearize(calls, 2_000_000)
+	d.Total = len(calls)
+	// fast real-time check on the whole history; its findings are judged by Coq
+	// like everything else: the flagged calls are part of the judged history
+	flagged, texts := anomalies(calls)
+	d.Anomalies = texts
+	budget := 2_000_000
+	if len(calls) > longRun {
+		calls = project(rand.New(rand.NewSource(c.Rand.Int63())), calls, flagged, 160)
+		d.Projected = true
+		budget = 300_000
+	}
+	order, best, exhausted := linearize(calls, budget)
 	resetIntern()
 	items := make([]string, len(calls))
 	for i, k := range calls {
@@ -741,8 +985,8 @@ func oneRun(c *reg.Ctx, nSep, nShared, perClient, procs int) {
 		d.Calls = append(d.Calls, fmt.Sprintf("#%d c%d %s = %s [%d,%d]", i, k.Client, k.Op, k.Res, k.Inv, k.Ret))
 	}
 	for i := range calls {
-		for j := i + 1; j < len(calls); j++ {
-			if calls[j].Inv <= calls[i].Ret && calls[i].Client != calls[j].Client {
+		for j := i + 1; j < len(calls) && calls[j].Inv <= calls[i].Ret; j++ {
+			if calls[i].Client != calls[j].Client {
 				d.Overlaps++
 			}
 		}
@@ -754,6 +998,9 @@ func oneRun(c *reg.Ctx, nSep, nShared, perClient, procs int) {
 	switch {
 	case order != nil:
 		d.Witness = fmt.Sprint(order)
+		if len(order) > 60 {
+			d.Witness = fmt.Sprint(order[:60]) + "..."
+		}
 	case exhausted:
 		d.Witness = fmt.Sprintf("none found within the search budget; longest linearizable prefix: %v", best)
 	default:
@@ -769,12 +1016,38 @@ func oneRun(c *reg.Ctx, nSep, nShared, perClient, procs int) {
 	rc.Key = fmt.Sprintf("%x", sum[:8])
 	rc.Nontrivial = d.Overlaps >= len(calls)/2 && len(calls) >= 20
 	c.Count(class)
+	c.Count("db=" + dbKind)
 	c.Count(fmt.Sprintf("goroutines=%d", nG))
 	c.Emit(rc)
 }
 
 func run(c *reg.Ctx) {
 	for i := 0; i < c.N; i++ {
+		procs := runtime.NumCPU()
+		if c.Tier == "thorough" || i%4 == 3 {
+			procs = 1 + c.Rand.Intn(16)
+		}
+		if i%5 >= 3 {
+			// probe run: writers add continuously, readers chase the sequence
+			// counter; alternately on a disk-backed and a memory-backed database
+			k := cfg{probe: true, disk: i%5 == 3, procs: procs}
+			k.nWriters = 2 + c.Rand.Intn(3)
+			nReaders := 2 + c.Rand.Intn(4)
+			if k.nWriters+nReaders > 8 {
+				nReaders = 8 - k.nWriters
+			}
+			if i%2 == 0 && nReaders >= 2 {
+				k.nSep, k.nShared = k.nWriters, nReaders // the readers share one client
+			} else {
+				k.nSep = k.nWriters + nReaders
+			}
+			k.adds, k.readerCap = 150+c.Rand.Intn(100), 300
+			if k.disk {
+				k.adds = 40 + c.Rand.Intn(30)
+			}
+			oneRun(c, k)
+			continue
+		}
 		nG := 2 + c.Rand.Intn(7) // 2..8 client goroutines
 		var nSep, nShared int
 		switch i % 3 {
@@ -793,10 +1066,6 @@ func run(c *reg.Ctx) {
 			nSep = nG - nShared
 		}
 		total := 120 + c.Rand.Intn(81)
-		procs := runtime.NumCPU()
-		if c.Tier == "thorough" || i%4 == 3 {
-			procs = 1 + c.Rand.Intn(16)
-		}
-		oneRun(c, nSep, nShared, total/nG+1, procs)
+		oneRun(c, cfg{nSep: nSep, nShared: nShared, perClient: total/nG + 1, procs: procs, disk: i%10 == 0})
 	}
 }
